@@ -370,6 +370,7 @@ func (t *Tree) genTransfer(rng *rand.Rand, a *sn.Node, inExt []*protos.TxInputEx
 		outs = append(outs, sn.Out{To: from.Address, Amount: rest})
 	}
 	change := new(big.Int).Sub(total, amt)
+	var splitFee *sn.Out
 	if o.Fees && change.Sign() > 0 && rng.Intn(3) == 0 {
 		fee := big.NewInt(int64(1 + rng.Intn(20)))
 		if fee.Cmp(change) > 0 {
@@ -378,9 +379,22 @@ func (t *Tree) genTransfer(rng *rand.Rand, a *sn.Node, inExt []*protos.TxInputEx
 		change.Sub(change, fee)
 		outs = append(outs, sn.Out{To: "$", Amount: fee})
 		kind += "+fee"
+		// a second fee output is legal (admission sums all of them)
+		if change.Sign() > 0 && rng.Intn(4) == 0 {
+			fee2 := big.NewInt(int64(1 + rng.Intn(9)))
+			if fee2.Cmp(change) > 0 {
+				fee2.Set(change)
+			}
+			change.Sub(change, fee2)
+			splitFee = &sn.Out{To: "$", Amount: fee2}
+			kind += "+fee2"
+		}
 	}
 	if change.Sign() > 0 {
 		outs = append(outs, sn.Out{To: from.Address, Amount: change})
+	}
+	if splitFee != nil {
+		outs = append(outs, *splitFee)
 	}
 	if rng.Intn(8) == 0 {
 		outs = append(outs, sn.Out{To: sn.K(rng.Intn(6)).Address, Amount: big.NewInt(0)})
